@@ -55,6 +55,7 @@ def flag_atoms(f):
 
 
 def run_cfg(ctx, p, cfg):
+    rule_style_forwarding(ctx, p, cfg, "X8")
     with ctx.rule("X1", "colour decision", cfg) as r:
         f = p.fn(CM_INIT)
         flags = flag_atoms(f)
@@ -608,3 +609,31 @@ def _is_plain_style(e, f=None):
                         if rv["k"] == "ref" and rv.get("mut") and rv["place"]["l"] == l:
                             return False
     return plain
+
+
+# writers that take no styling by design: they end in a file or an arbitrary io::Write
+PLAIN_SINKS = {"append::rolling_file::LogWriter": "bytes go to the log file", "encode::writer::simple::SimpleWriter": "wraps an arbitrary io::Write; documented to ignore styling"}
+# writers that consume the request themselves
+STYLE_CONSUMERS = {"encode::writer::ansi::AnsiWriter": "emits the SGR sequence (X5/X6)", "encode::pattern::RightAlignWriter": "buffers the style with the text and replays both in finish() (C10.A4)"}
+
+
+def rule_style_forwarding(ctx, p, cfg, rid="X8"):
+    """A style request issued by the pattern encoder has to travel through every wrapper between it and the writer that
+    emits the SGR sequence: each implementation of encode::Write either overrides set_style and hands the request to the
+    writer it wraps, unchanged and exactly once, or is one of the known end points."""
+    with ctx.rule(rid, "style requests reach the terminal writer", cfg) as r:
+        ims = p.impls_of("encode::Write")
+        r.floor("encode::Write impls", len(ims), 10)
+        for i in ims:
+            who = i.get("self_adt") or i.get("self_ty")
+            sets = [m for m in i["methods"] if m.endswith("::set_style")]
+            if not sets:
+                r.require(who in PLAIN_SINKS, "default-no-op-only-for-plain-sinks:%s" % who, detail="%s uses the trait's default (no-op) set_style: %s" % (who, PLAIN_SINKS.get(who, "")),
+                          fail_detail="%s implements encode::Write without overriding set_style: style requests passing through it are silently dropped (the trait default is a no-op)" % i.get("self_ty"))
+                continue
+            f = p.fn(sets[0])
+            if who in STYLE_CONSUMERS:
+                r.ok("consumes-style:%s" % who, fn=f, detail=STYLE_CONSUMERS[who])
+                continue
+            ok, why = q.check_forwarder(f, "encode::Write::set_style")
+            r.require(ok, "forwards-style:%s" % who, fn=f, detail=why, fail_detail="%s::set_style does not hand the request to the wrapped writer: %s" % (i.get("self_ty"), why))
